@@ -145,4 +145,134 @@ PROPS = {
         "quick": box(16, 400, 25, floor_evaluations=200, floor_shapes=20),
         "thorough": box(16, 12000, 420, floor_evaluations=2000, floor_shapes=50),
     },
+    "C15": {
+        "level": "exploration",
+        "technique": "runtime monitoring: differential oracle across write modes (Direct as "
+                     "reference vs. buffered / flusher / async with slowed writer thread) over "
+                     "record histories and raw io::Write chunk sequences incl. all 256 one-byte chunks",
+        "level_text": "Held on the executions explored (apart from the listed known findings): the "
+                      "same seeded sequence of records and operations is executed once per write "
+                      "mode under a frozen virtual clock and the ordered (name, content) lists "
+                      "after shutdown are compared; raw chunk sequences through ArcFileLogWriter: "
+                      "io::Write are compared with their own concatenation and across modes.",
+        "level_note": "Trusted: Direct mode as reference (itself tied to the models by C01/C08), "
+                      "family parser. Size criterion only (schedule independent).",
+        "rule": "cases alternate between record histories and chunk sequences; each is run under 4 "
+                "write modes; non-trivial iff at least two mode comparisons were evaluated (and at "
+                "least one file exists); distinct = shape keys (kind, driver level, naming, rotation "
+                "on/off, line ending, format, slowed async writer, trigger present, one-byte window, "
+                "file-count bucket)",
+        "assumptions": COMMON_ASSUMPTIONS,
+        "quick": box(16, 300, 25, floor_evaluations=200, floor_shapes=20),
+        "thorough": box(16, 8000, 420, floor_evaluations=2000, floor_shapes=50),
+    },
+    "C02": {
+        "level": "exploration",
+        "technique": "runtime monitoring: reference prefix-matcher + computable text-filter "
+                     "sub-language vs. recording LogWriter / LogLineFilter / additional writers, "
+                     "Log::enabled() and log::max_level() over a level x target x message grid",
+        "level_text": "Held on the executions explored: for seeded specifications (builder and "
+                      "string route; prefix chains, level words as names, off entries, with/without "
+                      "default and regex) every grid point (5 levels x targets derived from the "
+                      "spec's names x hitting/missing messages) is logged through the real logger "
+                      "with the macro gate emulated exactly; delivery, enabled() and the max-level "
+                      "admission (also for additional writers' ceilings) are compared with the model.",
+        "level_note": "Trusted: the 20-line matcher, the regex sub-language (escaped literal, ^lit, "
+                      "lit$, a|b), the emulation of the log macros' gate (level <= max_level()). "
+                      "Records are handed to Log::log directly (Logger::build), not through a "
+                      "globally installed logger.",
+        "rule": "cases = seeded specifications; non-trivial iff the grid contains both enabled and "
+                "disabled points; distinct = shape keys (route, observer kind, number of names, "
+                "default present, text filter present, number of additional writers)",
+        "assumptions": COMMON_ASSUMPTIONS,
+        "quick": box(16, 1500, 25, floor_evaluations=500, floor_shapes=20),
+        "thorough": box(16, 60000, 420, floor_evaluations=5000, floor_shapes=40),
+    },
+    "C05": {
+        "level": "exploration",
+        "technique": "runtime monitoring: specification stack-machine model vs. delivery / enabled() "
+                     "/ max_level grid after every reconfiguration operation, with a final drain of "
+                     "pops",
+        "level_text": "Held on the executions explored: seeded histories of the five reconfiguration "
+                      "operations (well-formed and malformed strings, nested pushes, pops on an "
+                      "empty stack, with/without text filter); after each operation and after each "
+                      "pop of a final drain the C02 grid is compared with the model's active spec.",
+        "level_note": "Trusted: stack machine (15 lines) + C02's matcher. Malformed strings are "
+                      "drawn from a fixed list of clearly malformed inputs (C17 decides the parser).",
+        "rule": "cases = seeded operation histories (1-40 ops); non-trivial iff >= 2 operations and "
+                ">= 2 comparisons; distinct = (length bucket, max stack depth, malformed string "
+                "seen, pop on empty stack seen)",
+        "assumptions": COMMON_ASSUMPTIONS,
+        "quick": box(16, 400, 25, floor_evaluations=200, floor_shapes=10),
+        "thorough": box(16, 12000, 420, floor_evaluations=2000, floor_shapes=20),
+    },
+    "C12": {
+        "level": "exploration",
+        "exhaustive": False,
+        "technique": "runtime monitoring with a deterministic interleaving controller: threads parked "
+                     "at spec_enter / spec_updated / spec_exit, all merge orders of the two internal "
+                     "steps of 2 concurrent calls (20 executions per tuple; 3 calls: 1680, all in "
+                     "the thorough tier for a third of the tuples, sampled otherwise) plus "
+                     "noise-driven uncontrolled runs",
+        "level_text": "Held on the executions explored: for seeded tuples of 2-3 concurrent "
+                      "set/parse/push/pop calls with different maximum levels, every schedule at "
+                      "hook granularity is executed against the real LoggerHandle clones; afterwards "
+                      "the enable grid must equal one submitted specification as a whole and "
+                      "log::max_level() must admit everything it enables. Exhaustive only at hook "
+                      "granularity per tuple; the tuples themselves are sampled.",
+        "level_note": "Trusted: schedule controller (a thread that blocks on the specification lock "
+                      "instead of parking is detected by a 10 ms bound and skipped, so atomic "
+                      "implementations are explored by the orders they permit), C02's matcher.",
+        "rule": "cases = seeded tuples of concurrent calls; each case executes its schedules (2 "
+                "calls: all 20); non-trivial iff at least one execution ran; distinct = (number of "
+                "threads, call kinds, controlled/stress); executed_orders counts the distinct "
+                "observed park sequences",
+        "assumptions": COMMON_ASSUMPTIONS,
+        "quick": box(16, 40, 25, floor_evaluations=60, floor_shapes=8, grace=240),
+        "thorough": box(16, 1200, 480, floor_evaluations=300, floor_shapes=12, grace=600),
+    },
+    "C17": {
+        "level": "exploration",
+        "technique": "runtime monitoring: round-trip decision equivalence (Display, TOML) on a grid + "
+                     "reference parser written from the documented BNF with an explicit "
+                     "'unspecified' class, over structured specs, alphabet strings and arbitrary "
+                     "Unicode",
+        "level_text": "Held on the inputs explored: Display/TOML round trips decide identically on "
+                      "every grid point; parse() never panics; Ok/Err equals the reference verdict "
+                      "and the specification carried by the error decides like the well-formed "
+                      "remainder (none if the '/' structure is malformed); the text filter equals "
+                      "the given regex iff it is valid.",
+        "level_note": "Trusted: reference parser (60 lines, from the BNF in the LogSpecification "
+                      "docs), regex crate for regex validity. Inputs on which the docs are silent "
+                      "(empty name/level around '=', duplicates, empty parts, numbers as levels) are "
+                      "classed unspecified: only 'no panic' is asserted; they are counted separately.",
+        "rule": "cases cycle through display round trip, TOML round trip, alphabet/damaged strings, "
+                "Unicode strings; non-trivial iff specified by the docs (and for round trips: a "
+                "non-empty spec); distinct = (form or string kind, class, well-/malformed, entries)",
+        "assumptions": COMMON_ASSUMPTIONS,
+        "quick": box(16, 20000, 25, floor_evaluations=5000, floor_shapes=15),
+        "thorough": box(16, 1000000, 420, floor_evaluations=100000, floor_shapes=20),
+    },
+    "C18": {
+        "level": "exploration",
+        "technique": "runtime monitoring: segment-ownership model over histories interleaving "
+                     "writes, flushes, rotations, external rename/remove + reopen_output and "
+                     "reset_flw; exact per-family partition and renamed-file comparison after shutdown",
+        "level_text": "Held on the executions explored: every externally renamed file holds exactly "
+                      "the records logged before its rename (incl. the unflushed buffered tail), "
+                      "the file at the original path exactly those after reopen_output(); after "
+                      "reset_flw the old family holds everything before and the new one everything "
+                      "after; nothing lost, duplicated or reordered (Direct/BufferDontFlush/"
+                      "BufferAndFlush, with/without size rotation, L1 and L2).",
+        "level_note": "Trusted: partition model + family parser. reopen_output is issued directly "
+                      "after the external rename/remove (what happens to writes in between is not "
+                      "stated by the property). Families use names that are not prefixes of each "
+                      "other (cross-family listing is C14's business).",
+        "rule": "cases = seeded histories; non-trivial iff at least one reopen or reset happened and "
+                ">= 2 records were logged; distinct = (driver level, write mode, line ending, format, "
+                "rename seen, remove seen, number of resets bucket, rotation involved)",
+        "assumptions": COMMON_ASSUMPTIONS,
+        "quick": box(16, 500, 25, floor_evaluations=200, floor_shapes=20),
+        "thorough": box(16, 12000, 420, floor_evaluations=2000, floor_shapes=40),
+    },
 }
